@@ -3,6 +3,7 @@ module verifharness
 go 1.20
 
 require (
+	github.com/google/go-eventlog v0.0.2-0.20241213203620-f921bdc3aeb0
 	github.com/google/go-tdx-guest v0.0.0
 	github.com/google/logger v1.1.1
 	google.golang.org/protobuf v1.34.2
@@ -10,7 +11,6 @@ require (
 
 require (
 	github.com/google/go-configfs-tsm v0.3.2 // indirect
-	github.com/google/go-eventlog v0.0.2-0.20241213203620-f921bdc3aeb0 // indirect
 	github.com/google/go-tpm v0.9.0 // indirect
 	go.uber.org/multierr v1.11.0 // indirect
 	golang.org/x/crypto v0.17.0 // indirect
